@@ -96,11 +96,18 @@ package diff
 
 //@ func CompareEnums
 //@ props C12 C13 C14
-//@ trusted
-//@ ensures vs_noNone(result)
+//@ safety
 //@ modifies nothing
+//@ ensures vs_noNone(result)
 //@ ensures len(result) <= 2 && vs_fresh(result)
 //@ ensures vs_all(func(i int) bool { return 0 <= i && i < len(result) ==> result[i].Change == AddedEnumValue || result[i].Change == DeletedEnumValue })
+//@ ensures vs_hasCode(result, 0, DeletedEnumValue) ==> vs_any(func(i int) bool { return 0 <= i && i < len(left) && !vs_memEnum(right, vs_enumStr(left[i])) })
+//@ ensures @thorough vs_any(func(i int) bool { return 0 <= i && i < len(left) && !vs_memEnum(right, vs_enumStr(left[i])) }) ==> vs_hasCode(result, 0, DeletedEnumValue)
+//@ ensures vs_hasCode(result, 0, AddedEnumValue) ==> vs_any(func(i int) bool { return 0 <= i && i < len(right) && !vs_memEnum(left, vs_enumStr(right[i])) })
+//@ ensures @thorough vs_any(func(i int) bool { return 0 <= i && i < len(right) && !vs_memEnum(left, vs_enumStr(right[i])) }) ==> vs_hasCode(result, 0, AddedEnumValue)
+//@ loop 1 invariant len(leftStrs) == vs_done(1) && vs_all(func(j int) bool { return 0 <= j && j < vs_done(1) ==> leftStrs[j] == vs_enumStr(left[j]) })
+//@ loop 2 invariant len(rightStrs) == vs_done(2) && vs_all(func(j int) bool { return 0 <= j && j < vs_done(2) ==> rightStrs[j] == vs_enumStr(right[j]) })
+//@ loop 2 invariant len(leftStrs) == len(left) && vs_all(func(j int) bool { return 0 <= j && j < len(left) ==> leftStrs[j] == vs_enumStr(left[j]) })
 
 //@ func getCompatibilityForChange
 //@ props C13 C15
@@ -339,12 +346,12 @@ package diff
 //@ ensures len(result) <= len(sd)
 //@ ensures vs_all(func(i int) bool { return 0 <= i && i < len(sd) ==> ignores.Contains(sd[i]) }) ==> len(result) == 0
 //@ ensures vs_all(func(i int) bool { return 0 <= i && i < len(sd) ==> !ignores.Contains(sd[i]) }) ==> len(result) == len(sd) && vs_all(func(i int) bool { return 0 <= i && i < len(sd) ==> vs_reclassified(result[i], sd[i]) })
-//@ ensures vs_all(func(k int) bool { return 0 <= k && k < len(result) ==> vs_any(func(i int) bool { return 0 <= i && i < len(sd) && !ignores.Contains(sd[i]) && vs_reclassified(result[k], sd[i]) }) })
+//@ ensures @thorough vs_all(func(k int) bool { return 0 <= k && k < len(result) ==> vs_any(func(i int) bool { return 0 <= i && i < len(sd) && !ignores.Contains(sd[i]) && vs_reclassified(result[k], sd[i]) }) })
 //@ ensures vs_all(func(i int) bool { return 0 <= i && i < len(sd) && !ignores.Contains(sd[i]) ==> vs_any(func(k int) bool { return 0 <= k && k < len(result) && vs_reclassified(result[k], sd[i]) }) })
 //@ loop 1 invariant len(newDiffs) <= vs_done(1)
 //@ loop 1 invariant vs_all(func(i int) bool { return 0 <= i && i < vs_done(1) ==> ignores.Contains(sd[i]) }) ==> len(newDiffs) == 0
 //@ loop 1 invariant vs_all(func(i int) bool { return 0 <= i && i < vs_done(1) ==> !ignores.Contains(sd[i]) }) ==> len(newDiffs) == vs_done(1) && vs_all(func(i int) bool { return 0 <= i && i < vs_done(1) ==> vs_reclassified(newDiffs[i], sd[i]) })
-//@ loop 1 invariant vs_all(func(k int) bool { return 0 <= k && k < len(newDiffs) ==> vs_any(func(i int) bool { return 0 <= i && i < vs_done(1) && !ignores.Contains(sd[i]) && vs_reclassified(newDiffs[k], sd[i]) }) })
+//@ loop 1 invariant @thorough vs_all(func(k int) bool { return 0 <= k && k < len(newDiffs) ==> vs_any(func(i int) bool { return 0 <= i && i < vs_done(1) && !ignores.Contains(sd[i]) && vs_reclassified(newDiffs[k], sd[i]) }) })
 //@ loop 1 invariant vs_all(func(i int) bool { return 0 <= i && i < vs_done(1) && !ignores.Contains(sd[i]) ==> vs_any(func(k int) bool { return 0 <= k && k < len(newDiffs) && vs_reclassified(newDiffs[k], sd[i]) }) })
 
 //@ func fromArrayStruct.DiffsTo
@@ -352,9 +359,16 @@ package diff
 //@ safety
 //@ modifies nothing
 //@ ensures f.from == nil ==> vs_same(added, toArray) && len(deleted) == 0 && len(common) == 0
-//@ ensures f.from != nil ==> vs_all(func(s string) bool { return vs_in(added, s) == (vs_in(toArray, s) && !vs_in(f.from, s)) })
-//@ ensures f.from != nil ==> vs_all(func(s string) bool { return vs_in(deleted, s) == (vs_in(f.from, s) && !vs_in(toArray, s)) })
-//@ ensures f.from != nil ==> vs_all(func(s string) bool { return vs_in(common, s) == (vs_in(f.from, s) && vs_in(toArray, s)) })
+//@ ensures f.from != nil ==> vs_all(func(s string) bool { return vs_mem(added, s) ==> vs_mem(toArray, s) && !vs_mem(f.from, s) })
+//@ ensures f.from != nil ==> vs_all(func(s string) bool { return (vs_mem(toArray, s) && !vs_mem(f.from, s)) ==> vs_mem(added, s) })
+//@ ensures f.from != nil ==> vs_all(func(s string) bool { return vs_mem(deleted, s) ==> vs_mem(f.from, s) && !vs_mem(toArray, s) })
+//@ ensures f.from != nil ==> vs_all(func(s string) bool { return (vs_mem(f.from, s) && !vs_mem(toArray, s)) ==> vs_mem(deleted, s) })
+//@ ensures f.from != nil ==> vs_all(func(s string) bool { return vs_mem(common, s) ==> vs_mem(f.from, s) && vs_mem(toArray, s) })
+//@ ensures f.from != nil ==> vs_all(func(s string) bool { return (vs_mem(f.from, s) && vs_mem(toArray, s)) ==> vs_mem(common, s) })
+//@ ensures f.from != nil && len(deleted) > 0 ==> vs_mem(f.from, deleted[0]) && !vs_mem(toArray, deleted[0])
+//@ ensures f.from != nil ==> vs_all(func(i int) bool { return 0 <= i && i < len(f.from) && !vs_mem(toArray, f.from[i]) ==> len(deleted) > 0 })
+//@ ensures f.from != nil && len(added) > 0 ==> vs_mem(toArray, added[0]) && !vs_mem(f.from, added[0])
+//@ ensures f.from != nil ==> vs_all(func(i int) bool { return 0 <= i && i < len(toArray) && !vs_mem(f.from, toArray[i]) ==> len(added) > 0 })
 //@ loop 1 invariant m != nil && vs_all(func(s string) bool { return vs_has(m, s) == vs_inPrefix(f.from, vs_done(1), s) }) && vs_all(func(s string) bool { return vs_has(m, s) ==> m[s] == 1 })
 //@ loop 2 invariant m != nil && vs_all(func(s string) bool { return vs_has(m, s) == (vs_in(f.from, s) || vs_inPrefix(toArray, vs_done(2), s)) })
 //@ loop 2 invariant vs_all(func(s string) bool { return vs_has(m, s) ==> m[s] == vs_flags(vs_in(f.from, s), vs_inPrefix(toArray, vs_done(2), s)) })
@@ -362,3 +376,24 @@ package diff
 //@ loop 3 invariant vs_all(func(s string) bool { return vs_in(added, s) == (vs_visited(1, s) && m[s] == 2) })
 //@ loop 3 invariant vs_all(func(s string) bool { return vs_in(common, s) == (vs_visited(1, s) && m[s] == 3) })
 //@ loop 3 invariant m != nil && vs_all(func(s string) bool { return vs_has(m, s) == (vs_in(f.from, s) || vs_in(toArray, s)) }) && vs_all(func(s string) bool { return vs_has(m, s) ==> m[s] == vs_flags(vs_in(f.from, s), vs_in(toArray, s)) })
+
+//@ func DifferenceLocation.AddNode
+//@ props C12 C13 C14 C15
+//@ safety
+//@ modifies nothing
+//@ ensures result.URL == dl.URL && result.Method == dl.Method && result.Response == dl.Response
+//@ ensures dl.Node == nil ==> result.Node == node
+//@ ensures dl.Node != nil ==> result.Node != nil && vs_fresh(result.Node)
+
+//@ func getSchemaDiffNode
+//@ props C12 C13 C14
+//@ safety
+//@ modifies nothing
+//@ requires vs_nonNilItem(schema)
+//@ ensures result != nil && vs_fresh(result) && result.Field == name
+
+//@ func getNameOnlyDiffNode
+//@ props C12 C13 C14
+//@ safety
+//@ modifies nothing
+//@ ensures result != nil && vs_fresh(result) && result.Field == forLocation
